@@ -124,7 +124,55 @@ theorem array_no_fault (args : List Val) : ctorCall arrayCtor args ≠ .fault :=
         | bool b => simp [arrayParam, inst, instAny] at hi0
         | undef => simp [arrayParam, inst, instAny] at hi0
         | default => simp [arrayParam, inst, instAny] at hi0
+        | hash es => simp [arrayParam, inst, instAny] at hi0
     | n + 1, hcr => simp [arrayCtor] at hcr
+
+theorem hashFromArray_no_fault (vs : List Val) : hashFromArray vs ≠ .fault := by
+  unfold hashFromArray
+  split
+  · split <;> simp
+  · split <;> simp
+
+theorem hash_no_fault (args : List Val) : ctorCall hashCtor args ≠ .fault := by
+  rcases ctorCall_cases hashCtor args ⟨_, rfl⟩ with h | ⟨i, cr, hcr, hacc, hcall⟩
+  · rw [h]; simp
+  · rw [hcall]
+    obtain ⟨⟨hreq, _, hargs⟩, _⟩ := hacc
+    match i, hcr with
+    | 0, _ => simp [hashCtor]
+    | 1, hcr =>
+      simp [hashCtor] at hcr; subst hcr
+      simp only [paramsOf, List.filterMap, BOp.param?] at hreq hargs
+      have h0 := hreq 0 (.req, keyValueArray) (by simp) rfl
+      match args, h0 with
+      | a0 :: rest, _ =>
+        obtain ⟨p0, hp0, hi0⟩ := hargs 0 a0 (by simp)
+        simp at hp0; subst hp0
+        cases a0 <;> simp [keyValueArray, inst] at hi0
+        simpa [hashCtor] using hashFromArray_no_fault _
+    | 2, hcr =>
+      simp [hashCtor] at hcr; subst hcr
+      simp only [paramsOf, List.filterMap, BOp.param?] at hreq hargs
+      have h0 := hreq 0 (.req, iterableTy) (by simp) rfl
+      match args, h0 with
+      | a0 :: rest, _ =>
+        obtain ⟨p0, hp0, hi0⟩ := hargs 0 a0 (by simp)
+        simp at hp0; subst hp0
+        cases a0 with
+        | arr vs => simpa [hashCtor] using hashFromArray_no_fault vs
+        | hash es => simp [hashCtor]
+        | str s =>
+          simp only [hashCtor]
+          have hse : stringElements s ≠ .fault := by unfold stringElements; split <;> simp
+          cases hres : stringElements s with
+          | fault => exact absurd hres hse
+          | reported c => simp
+          | value v => cases v <;> simp; exact hashFromArray_no_fault _
+        | int n => simp [iterableTy, inst, instAny] at hi0
+        | bool b => simp [iterableTy, inst, instAny] at hi0
+        | undef => simp [iterableTy, inst, instAny] at hi0
+        | default => simp [iterableTy, inst, instAny] at hi0
+    | n + 3, hcr => simp [hashCtor] at hcr
 
 /-- `InitType.New` hands the arguments to the same constructor -/
 theorem initCall_no_fault (c : Ctor) (h : ∀ args, ctorCall c args ≠ .fault) (args : List Val) : initCall c args ≠ .fault := by
